@@ -38,9 +38,11 @@ def spanOk (n : Nat) (sp : Span) : Prop := sp = (-1, -1) ∨ (0 ≤ sp.1 ∧ sp.
 
 instance (n : Nat) (sp : Span) : Decidable (spanOk n sp) := by unfold spanOk; infer_instance
 
-/-- Soundness hypothesis on the engine: every reported span lies within the subject. -/
-def RxSound (rx : Rx) : Prop :=
-  ∀ pat ic s r, rx.exec pat ic s = some r → spanOk s.length r.1 ∧ ∀ sp ∈ r.2, spanOk s.length sp
+/-- Soundness hypothesis on the engine (what the PCRE documentation promises about `ovector`):
+every reported span lies within the subject, and no more groups are reported than the pattern has. -/
+structure RxSound (rx : Rx) : Prop where
+  spans : ∀ pat ic s r, rx.exec pat ic s = some r → spanOk s.length r.1 ∧ ∀ sp ∈ r.2, spanOk s.length sp
+  arity : ∀ pat ic s r, rx.exec pat ic s = some r → r.2.length ≤ (rx.info pat ic).getD 0
 
 /-- A constructed `booster::regex` (pattern text and the `icase` flag; `utf8` is never set by cppcms routing). -/
 structure Regex where
